@@ -15,6 +15,7 @@
 package ggql
 
 import (
+	"math"
 	"time"
 )
 
@@ -43,10 +44,12 @@ func (*timeScalar) CoerceIn(v interface{}) (interface{}, error) {
 	case nil:
 		// leave as nil
 	case float64:
-		secs := int64(tv)
-		v = time.Unix(0, secs*int64(time.Second)).In(time.UTC).Add(time.Duration((tv - float64(secs)) * float64(time.Second)))
+		if math.IsNaN(tv) || 1<<63 <= math.Abs(tv) { // not a number of seconds an int64 holds
+			return nil, newCoerceErr(tv, "Time")
+		}
+		v = timeOfSeconds(tv)
 	case int64:
-		v = time.Unix(0, tv*int64(time.Second)).In(time.UTC)
+		v = time.Unix(tv, 0).In(time.UTC)
 	case string:
 		var t time.Time
 		if t, err = time.Parse(time.RFC3339Nano, tv); err == nil {
@@ -74,10 +77,12 @@ func (t *timeScalar) CoerceOut(v interface{}) (interface{}, error) {
 	case nil:
 		// remains nil
 	case float64:
-		secs := int64(tv)
-		tt = time.Unix(0, secs*int64(time.Second)).In(time.UTC).Add(time.Duration((tv - float64(secs)) * float64(time.Second)))
+		if math.IsNaN(tv) || 1<<63 <= math.Abs(tv) { // not a number of seconds an int64 holds
+			return nil, newCoerceErr(tv, "Time")
+		}
+		tt = timeOfSeconds(tv)
 	case int64:
-		tt = time.Unix(0, tv*int64(time.Second)).In(time.UTC)
+		tt = time.Unix(tv, 0).In(time.UTC)
 	case string:
 		if tt, err = time.Parse(time.RFC3339Nano, tv); err != nil {
 			v = nil
@@ -89,7 +94,19 @@ func (t *timeScalar) CoerceOut(v interface{}) (interface{}, error) {
 		v = nil
 	}
 	if err == nil && v != nil {
-		v = tt.In(time.UTC).Format(time.RFC3339Nano)
+		tt = tt.In(time.UTC)
+		if y := tt.Year(); y < 0 || 9999 < y {
+			// RFC 3339 has four digits for the year.
+			return nil, newCoerceErr(v, "Time")
+		}
+		v = tt.Format(time.RFC3339Nano)
 	}
 	return v, err
+}
+
+// timeOfSeconds is the time that many seconds after the epoch. Going through
+// nanoseconds as an int64 wraps around outside the years 1678 to 2262.
+func timeOfSeconds(f float64) time.Time {
+	secs := int64(f)
+	return time.Unix(secs, 0).In(time.UTC).Add(time.Duration((f - float64(secs)) * float64(time.Second)))
 }
